@@ -27,7 +27,17 @@ extern "C" void harness(void) {
   auto log = Log::get_for_unittest(-1, sink, true);   // no flusher thread: the step is examined in isolation
   log->inline_ = false;
   auto& st = log->state_;
+#ifdef H_SMALLCAP
+  // the cap is a (const) member of the state: the same code is examined with a small symbolic cap, so that lines longer
+  // than the whole cap - which the bounded strings cannot reach at 1 MiB - are covered as well
+  int64_t cap = vf_nd(3, 0, 12);
+  const_cast<size_t&>(st.maxSize) = (size_t)cap;
+  int64_t backlog = vf_nd(1, 0, 12); vf_assume(backlog <= cap);
+#else
+  int64_t cap = 1024 * 1024;
   int64_t backlog = vf_nd(1, 0, 1024 * 1024);         // bytes already accepted and not yet written (ghost for the queued lines)
+#endif
+  vf_cfg_set(0, 3, cap);
   int64_t dropped = vf_nd(2, 0, 5);
   st.curSize = (size_t)backlog; st.numDiscarded = (size_t)dropped;
   std::string s = symstr(10, 6);
